@@ -13,13 +13,13 @@ import random
 
 LEVEL = "exploration"
 RULE = ("ilp on n <= 6 items (values <= 200), 1-4 bins, five objectives; option classes: copies (one number 0/1/2, a per-item list, or a per-item dict keyed by item index written in shuffled insertion order), constraints smallest==c / largest<=c / smallest>=c (one, or two in the same list) with c below, at and "
-        "above feasibility (infeasible ones must raise ValueError), weights (uniform and non-uniform from {1,2,3,5,10,1/2}), plain; non-trivial = constraint binding (constrained optimum differs from the "
+        "above feasibility (infeasible ones must raise ValueError), weights (uniform and non-uniform from {1/4,1/2,1,2,3,5,7.5,10,20,25,50,100}), plain; non-trivial = constraint binding (constrained optimum differs from the "
         "unconstrained one) or infeasible, or copies not all 1, or weights not all equal; distinct on the full call")
 ASSUMPTIONS = ["values <= 200 (the property's solver envelope); a mismatch that disappears with CBC preprocessing off is inconclusive(solver)",
                "equal weights: 'never change the result' is read as same optimal value, same copies, ascending sums (the partition may differ among equally optimal ones)",
                "non-uniform weights: open finding KF-ilp-weights (classifier: result is the optimum of the restricted model up to a permutation of bins)"]
 FLOORS = {"quick": {"distinct_nontrivial": 500}, "thorough": {"distinct_nontrivial": 2500}}
-W_POOL = (1, 2, 3, 5, 10, 0.5)
+W_POOL = (1, 2, 3, 5, 10, 0.5, 0.25, 7.5, 20, 25, 50, 100)
 
 
 def plan(tier, seed):
